@@ -381,10 +381,10 @@ def run_obl(obl, want_trace_for=None):
             errors.append(el.get("messageText", ""))
         mt = el.get("messageText", "")
         if el.get("messageType") == "STATUS-MESSAGE":
-            m = re.match(r"Runtime Symex: ([0-9.e+-]+)s", mt)
+            m = re.search(r"Runtime Symex: ([0-9.e+-]+)s", mt)
             if m:
                 res.symex_s += float(m.group(1))
-            m = re.match(r"Runtime (Solver|decision procedure): ([0-9.e+-]+)s", mt)
+            m = re.search(r"Runtime (Solver|decision procedure): ([0-9.e+-]+)s", mt)
             if m:
                 res.solver_s += float(m.group(2))
             m = re.match(r"Generated (\d+) VCC\(s\), (\d+) remaining", mt)
